@@ -127,6 +127,21 @@ func c19Fingerprint(f func(interface{}) ([]interface{}, error)) string {
 	return strings.Join(parts, " | ")
 }
 
+// c19Core: the operations that continue thorough histories beyond the second one: Parse of
+// the function paths, the bad-regex path, the two '$'-less / failing-inside-a-parameter paths
+// with no config, {f} and the shared object; rebind; re-call of the newest function.
+func c19Core(op int) bool {
+	if op >= c19NumParse() {
+		return op <= c19NumParse()+1
+	}
+	pi, ck := op/c19NumCfg, op%c19NumCfg
+	switch pi {
+	case 1, 2, 7, 15, 17, 18:
+		return ck == 0 || ck == 1 || ck == 6
+	}
+	return false
+}
+
 // c19State is the mutable state a history carries.
 type c19State struct {
 	shared  jsonpath.Config
@@ -497,7 +512,12 @@ func (j *c19Job) RunUnit(i int, c *run.Ctx) {
 				continue
 			}
 			// depth pruning for the quick tier: the third operation ranges over a reduced alphabet
-			if j.tier != "thorough" && len(hist) == 2 && op < c19NumParse() && (op%c19NumCfg)%2 == 1 && (op/c19NumCfg)%3 != 0 {
+			reduced := !(op < c19NumParse() && (op%c19NumCfg)%2 == 1 && (op/c19NumCfg)%3 != 0)
+			if len(hist) == 2 && !reduced && !(j.tier == "thorough" && c19Core(op)) {
+				continue
+			}
+			// thorough tier, histories of length 4: operations 3 and 4 both from the core alphabet
+			if len(hist) == 3 && !(c19Core(hist[2]) && c19Core(op)) {
 				continue
 			}
 			rec(append(hist, op))
@@ -660,7 +680,7 @@ func init() {
 		},
 		Bounds: map[string]string{
 			"quick":    "operations: Parse of 19 paths (plain, filter function, aggregate, functions inside filters, nested parameters, and one failing at each action: bad integer, bad float, bad regex, bad string, unknown function after a known one, script, value-group comparison, two @ operands, trailing garbage) x 7 configs (none, {f}, {g}, {f'}, accessor, all, shared object) plus, for the plain / f / g paths, two Config arguments (shared object, fresh {f', h, g}) and a by-value copy of the shared object with accessor mode set on the copy, 'rebind f in the shared Config', 're-call an earlier function'; all histories of length <=2 and length 3 with a reduced third alphabet; BFS to fixpoint",
-			"thorough": "all histories of length <=3 over the full alphabet and length 4 with the reduced last alphabet; BFS to fixpoint",
+			"thorough": "as quick, plus: third operation also over the core alphabet of 20 (the function, bad-regex, '$'-less and failing-parameter paths with no config / {f} / the shared object, rebind, re-call), and all histories of length 4 whose first two operations range over the full alphabet and whose last two over the core alphabet; BFS to fixpoint",
 		},
 		New: newC19,
 		Replay: func(cs map[string]interface{}) (bool, string) {
